@@ -77,9 +77,7 @@ def run_one(case):
         blk, b, exc = common.construct(w, ast)
         if exc is not None:
             return common.result_base(w, outcome="skip", reason="constructor-refused:" + type(exc).__name__)
-        if m.status == "ok" and blk.trials_per_sample() != m.T:
-            # trial count is C16's property; without agreement on T the validity oracle has no footing
-            return common.result_base(w, outcome="skip", reason="trial-count-differs(C16)")
+        t_differs = m.status == "ok" and blk.trials_per_sample() != m.T
         returned = 0
         viol = None
         for strat in case["strategies"]:
@@ -87,7 +85,13 @@ def run_one(case):
             if exc is not None:
                 continue        # exceptions are C08's business (or injected faults)
             returned += len(res)
-            v = check_sequences(m, res, strat)
+            if t_differs:
+                # the block reports another trial count than the documented arithmetic gives (C16's business as long as
+                # nothing is returned); a sequence of that length is not valid for the design as documented
+                v = ("invalid/trial-count", "strategy %s returned %d sequence(s) of a block that reports %d trials, documented count %d" % (
+                    strat, len(res), blk.trials_per_sample(), m.T)) if res else None
+            else:
+                v = check_sequences(m, res, strat)
             if v and viol is None:
                 viol = (strat, v)
         key = (dast.skeleton(ast), tuple(case["strategies"]), case["knobs"]["peer"], case["knobs"]["transport"], faulty)
@@ -95,6 +99,9 @@ def run_one(case):
                                   summary={"design": dast.describe(ast), "T": m.T, "returned": returned,
                                            "strategies": case["strategies"], "peer": case["knobs"]["peer"],
                                            "transport": case["knobs"]["transport"], "faults": case.get("faults")})
+        if t_differs and not viol:
+            base.update(outcome="skip", reason="trial-count-differs(C16)")
+            return base
         if viol:
             strat, (tail, detail) = viol
             cls = "sat" if strat in ("IterateSATGen", "IterateGen") else "sampler"
